@@ -240,6 +240,9 @@ func (w *World) c20Build() error {
 	if err != nil {
 		return err
 	}
+	if len(p.RawConfig) > 0 {
+		cj = p.RawConfig
+	}
 	if err := json.Unmarshal(cj, &w.conf); err != nil {
 		return err
 	}
@@ -348,6 +351,16 @@ func (w *World) c20Loop() {
 		if !w.healed && w.step > w.plan.Faults.HealAt {
 			w.healed = true
 			w.logf("heal")
+		}
+		if len(w.plan.C15Submit) > 0 && !w.c15Submitted && len(w.c20Verdicts) > 0 && w.step > 150 {
+			w.c15Submitted = true
+			st.mu.Lock()
+			st.inFlight++
+			st.restarts++
+			st.mu.Unlock()
+			w.logf("dashboard submission (C15)")
+			go w.c15Dashboard()
+			continue
 		}
 		if w.faultsOn() {
 			st.mu.Lock()
@@ -505,6 +518,27 @@ func (w *World) c20Commits() {
 	w.seenCommit = len(w.commits)
 	w.mu.Unlock()
 	cs := w.plan.C20
+	if len(w.plan.ScriptChain) > 0 {
+		for i, sc := range w.plan.ScriptChain {
+			if w.scriptFired[i] {
+				continue
+			}
+			for k, v := range w.c20Progress {
+				if sc.Pair != "" && k != sc.Pair {
+					continue
+				}
+				if v >= sc.AtPos {
+					w.scriptFired[i] = true
+					if sc.Action == "reorg" {
+						w.chainReorg(sc.Src, sc.Depth, sc.NewLen)
+					} else {
+						w.chainGrow(sc.Src, sc.N)
+					}
+					break
+				}
+			}
+		}
+	}
 	for _, ci := range list {
 		ts := ci.Snap.Table(cursorTable)
 		if ts == nil {
